@@ -168,6 +168,17 @@ def run(report, only=None):
                 events.append("take_ownership:" + ("output" if args and args[0] == ("cffi_output",) else "other"))
                 return None
 
+        class DirectResult:
+            """Tensor.from_dok / from_aos / from_soa / from_lol called inside __call__: a result built without the kernel."""
+
+            def apply(self, it, fn, args, kwargs):
+                events.append("result-built-directly")
+                return ("direct result",)
+
+        for ctor in ("from_dok", "from_aos", "from_soa", "from_lol"):
+            f_ = getattr(Tensor, ctor, None)
+            if f_ is not None:
+                interp.contracts[id(getattr(f_, "__func__", f_))] = DirectResult()
         interp.contracts[id(TM.allocate_taco_structure)] = Allocate()
         interp.contracts[id(TM.take_ownership_of_arrays)] = Own()
         stub = Evaluate()
@@ -204,6 +215,14 @@ def run(report, only=None):
             report.add_obligation(oid, "B", "discharged" if not bad_order else "sat", "pyvc path exploration", 0.0, "TensorMethod.__call__")
         if bad_order and only is None:
             report.violation(oid, dict(what=f"event order on some path: {bad_order[0]}"), False)
+        # a call that returns normally returns what the kernel computed: allocate, kernel, take_ownership - no short cut
+        shortcuts = [ev for kind, ev, _ in outcomes if kind == "return" and ev[:3] != ["allocate", "kernel", "take_ownership:output"]]
+        oid2 = f"{label}:result-comes-from-the-kernel"
+        if only is None or any(x in oid2 for x in only):
+            report.add_obligation(oid2, "B", "discharged" if not shortcuts else "sat", "pyvc path exploration", 0.0, "TensorMethod.__call__")
+            if shortcuts:
+                report.violation(oid2, dict(what=f"some call returns a result without running the kernel (events on that path: {shortcuts[0]}): the value returned is not what the kernel computes", assignment=assignment,
+                                            how_to_replay="call the tensor method with arguments that take the short cut (e.g. a zero-sized dimension) and compare with the tensor algebra"), False)
         seen = set()
         for ps in paths:
             if ps.outcome != "ok":
